@@ -206,6 +206,19 @@ impl ReadXml for EmptyReply {
                     tracing::debug!(?tag);
                     this = Some(Self::Ok);
                 }
+                // `<ok></ok>` is the same element as `<ok/>`
+                (ResolveResult::Bound(ns), Event::Start(tag))
+                    if ns == xmlns::BASE
+                        && tag.local_name().as_ref() == b"ok"
+                        && this.is_none()
+                        && errors.is_empty() =>
+                {
+                    tracing::debug!(?tag);
+                    match reader.read_event()? {
+                        Event::End(end) if end == tag.to_end() => this = Some(Self::Ok),
+                        event => return Err(ReadError::UnexpectedXmlEvent(event.into_owned())),
+                    }
+                }
                 (ResolveResult::Bound(ns), Event::Start(tag))
                     if ns == xmlns::BASE
                         && tag.local_name().as_ref() == b"rpc-error"
